@@ -202,6 +202,21 @@ CHECKS = {
             'Names colliding with members of the snapshot type are excluded as the property says; '
             'snapshot.__dict__ is not manipulated directly.',
             'DESIGN.md section 3 / C17'),
+    'C18': ('exploration',
+            'property-based testing (Hypothesis): exact rational evaluation of every polynomial operation '
+            'against independent textbook implementations (randomised identity testing, Schwartz-Zippel '
+            'bound), exhaustive enumeration of all swizzle strings per case, tolerance-based checks for the '
+            'square-root / angle operations',
+            'Every case evaluates all operations: vector arithmetic, dot, cross, lerp, scale, clamp, matrix '
+            'product (Mat3/Mat4), associativity, identity, matrix-vector convention, transpose, inverse vs '
+            'Gaussian-elimination determinant incl. constructed singular matrices and the warning, '
+            'translation/scale/orthogonal-projection constructors, all 481 swizzle strings, and the float '
+            'operations with a stated tolerance; a wrong polynomial survives one case with probability <= '
+            '4/20001. Not a proof of the identities.',
+            'Exact regime uses fractions.Fraction (duck-typed through the tuple classes); matrices that hold '
+            'float literals (identity, from_translation, from_scale) are exercised with integer operands; float '
+            'regime limited to magnitudes in {0} u [1e-3, 1e3].',
+            'DESIGN.md section 3 / C18'),
     'C19': ('exploration',
             'differential property-based testing (Hypothesis): twin worlds (shorthand through a controller vs '
             'the corresponding World call), Prototype subclasses built with type() vs a specification '
